@@ -101,6 +101,12 @@ pub fn gen_decl(src: &mut Src, exclude_capture: bool) -> Decl {
             }
             values.push(Value { ident: id.to_string(), rename });
         }
+        // an eighth of the labels with two or more values: the first two are renamed to strings of equal length (more than eight
+        // bytes) that differ only in their last characters
+        if values.len() >= 2 && src.chance(32) {
+            values[0].rename = Some("endpoint_read".to_string());
+            values[1].rename = Some("endpoint_scan".to_string());
+        }
         let enum_name = if src.chance(100) { Some(format!("E{}", li)) } else { None };
         labels.push(Label { name: ln.to_string(), enum_name, values });
     }
